@@ -28,8 +28,9 @@ theorem printer_covers_right (p : BinOp) (r : PExp) (h : needParenRight p r = tr
 
 /-- trees the printer writes in a form the parser reads back (token level): the printable fragment without the
 lexical conditions on names — integer literals within `i64`, names that are no keywords, known block kinds with
-the right number of members, as many iteration variables as iterators, no float / string index of a compound
-variable, arrays of integers -/
+the right number of members, as many iteration variables as iterators, arrays of integers; a decimal or string
+index of a compound variable is one the printer writes in braces (since 7352fcb every index that is no
+non-negative integer, integral decimal, name fragment `_2` or variable) -/
 def WFx : PExp → Prop
   | .int v => v ≤ i64Max
   | .num _ => True
@@ -54,8 +55,8 @@ where
   WFidx : List PExp → Prop
     | [] => True
     | .var _ :: es => WFidx es
-    | .num _ :: _ => False
-    | .str _ :: _ => False
+    | .num t :: es => numIndexBare t = false ∧ WFidx es     -- written in braces (7352fcb)
+    | .str s :: es => strIndexBare s = false ∧ WFidx es
     | e :: es => WFx e ∧ WFidx es
   /-- as many variables as iterators, at least one, no empty tuple -/
   WFits : List IterVar → List PExp → Prop
@@ -230,8 +231,14 @@ theorem fmtIdx_tk : (idx : List PExp) → WFx.WFidx idx → Idx idx (fmtToksIdx 
     have := Idx.int (s := String.ofList (natDigits v)) (by simpa [digitsToNat_natDigits] using h.1) hr
     simp only [String.toList_ofList, digitsToNat_natDigits] at this
     simp only [fmtToksIdx]; exact this
-  | .num _ :: _, h => by simp [WFx.WFidx] at h
-  | .str _ :: _, h => by simp [WFx.WFidx] at h
+  | .num t :: es, h => by
+    simp only [WFx.WFidx] at h
+    obtain ⟨items, hk, _⟩ := fmt_tk (.num t) (by simp [WFx])
+    simp only [fmtToksIdx]; exact Idx.brace hk (fmtIdx_tk es h.2)
+  | .str s :: es, h => by
+    simp only [WFx.WFidx] at h
+    obtain ⟨items, hk, _⟩ := fmt_tk (.str s) (by simp [WFx])
+    simp only [fmtToksIdx]; exact Idx.brace hk (fmtIdx_tk es h.2)
   | .bool b :: es, h => by
     simp only [WFx.WFidx] at h
     obtain ⟨items, hk, _⟩ := fmt_tk (.bool b) h.1
